@@ -27,7 +27,7 @@ def make(rng, S):
     shape = [n] + trailing
     L = gen.lanes_of(shape)
     if S == "Q":
-        xs = gen.axis_q(rng, n, rng.choice(["unit", "uniform", "geometric", "random", "dyadic", "mesh64"]))
+        xs = gen.axis_q(rng, n, rng.choice(["unit", "uniform", "geometric", "random", "dyadic", "mesh64", "evenish"]))
         flat = gen.vals_q(rng, n * L, rng.choice(["int", "dyadic", "rational"]))
         P = xs[-1] - xs[0]
         base = [xs[0], xs[-1], xs[0] + P * Fr(1, 2 ** 40), xs[-1] - P * Fr(1, 2 ** 40), xs[1], xs[0] + P * Fr(rng.randint(1, 99), 100)]
@@ -53,6 +53,24 @@ def generate(rng, tier):
                       "meta": {"S": S, "nb": len(base), "nk": len(ks), "L": L, "first": flat[:L], "P": P, "ks": ks, "ext": True,
                                "scale": max(abs(v) for v in flat) + 1.0 if S == "F" else None,
                                "hmin": min(b - a for a, b in zip(xs, xs[1:])) if S == "F" else None, "xs": xs}})
+        if S == "F" and rng.random() < 0.6:
+            # far family: axis starting at 0 (so x - x0 is exact) and queries of huge magnitude; the wrapped argument fmod(x, P) is
+            # exact, so S(x) must equal S(fmod(x, P)) bit for bit
+            n2 = rng.choice([3, 4, 6, 12])
+            steps = [rng.randint(1, 16) / 4.0 for _ in range(n2 - 1)]
+            xs2 = [0.0]
+            for h in steps:
+                xs2.append(xs2[-1] + h)
+            P2 = xs2[-1]
+            fl2 = [rng.uniform(-3, 3) for _ in range(n2)]
+            fl2[-1] = fl2[0]
+            far = [1e16, 1e17, 3.0e18 + 1024, 2.0 ** 70 + 2.0 ** 20, 7.3e22, 1e100, 1e300, 1.7976931348623157e308,
+                   float(rng.randint(10 ** 15, 10 ** 16)), float(rng.randint(2 ** 53, 2 ** 62))]
+            qs2 = []
+            for x in far:
+                qs2 += [x, math.fmod(x, P2)]
+            cases.append({"line": i1_line("F", xs2, [n2], fl2, ("spl", True, "per"), e_array("F", [len(qs2)], qs2)),
+                          "meta": {"S": "F", "ext": True, "far": True}})
         if rng.random() < 0.3:
             # same spline without extrapolation: images outside the range are rejected
             q_out = [base[-1] + P, base[-1]]
@@ -71,6 +89,13 @@ def oracle(case, res):
         return None if res.kind == "oob" else f"periodic boundary without extrapolation must reject outside queries, got {res.raw[:60]}"
     if res.kind != "ok":
         return f"periodic extrapolation must answer every finite query, got {res.raw[:80]}"
+    if m.get("far"):
+        b = res.bits()
+        for k in range(0, len(b), 2):
+            if b[k] != b[k + 1]:
+                return (f"query #{k} is a whole number of periods away from query #{k + 1} (exactly, fmod): results must be "
+                        f"identical, got {res.vals[k]} vs {res.vals[k + 1]}")
+        return None
     L, nb, nk = m["L"], m["nb"], m["nk"]
     if m["S"] == "Q":
         v = res.fractions()
